@@ -936,6 +936,45 @@ fn run_case(ci: usize, c: &Value) -> Vec<Value> {
             Some(r) => r,
             None => return evs,
         };
+        if round == 0 {
+            // round 5: load - EDIT - save. A parsed tile (its in-memory headers still carry the offsets / flags of the file it came
+            // from) has one kind of optional MCNK sub-chunk removed from every chunk, is rebuilt through the case's route and
+            // parsed again: the content must be the edited content (nothing of the removed sub-chunk may come back).
+            for kind in ["mclv", "mccv", "mcsh"] {
+                let mut ed = root.clone();
+                let mut had = false;
+                for k in ed.mcnk_chunks.iter_mut() {
+                    match kind {
+                        "mclv" => { had |= k.vertex_lighting.is_some(); k.vertex_lighting = None; }
+                        "mccv" => { had |= k.vertex_colors.is_some(); k.vertex_colors = None; }
+                        _ => { had |= k.shadow.is_some(); k.shadow = None; }
+                    }
+                }
+                if !had {
+                    continue;
+                }
+                let pre = sec_json(&sec_parsed(&ed));
+                let route = gs(c, "route");
+                let o = guarded(|| {
+                    let b = match route {
+                        "root" => BuiltAdt::from_root_adt(ed, None),
+                        _ => match AdtBuilder::from_parsed(ed).build() { Ok(b) => b, Err(e) => return Err(format!("err:{}", variant_name(&e))) },
+                    };
+                    let bytes = b.to_bytes().map_err(|e| format!("err:{}", variant_name(&e)))?;
+                    match parse_adt(&mut Cursor::new(&bytes)) {
+                        Ok(ParsedAdt::Root(r2)) => Ok(sec_json(&sec_parsed(&r2))),
+                        Ok(_) => Err("kind".to_string()),
+                        Err(e) => Err(format!("parse-err:{}", variant_name(&e))),
+                    }
+                });
+                let (res, post) = match o {
+                    Outcome::Done(Ok(p)) => ("ok".to_string(), p),
+                    Outcome::Done(Err(e)) => (e, sec_empty()),
+                    _ => ("panic".to_string(), sec_empty()),
+                };
+                evs.push(json!({"ev":"Edit","case":case,"round":round,"drop":kind,"res":res,"pre":pre,"post":post}));
+            }
+        }
         if round == ROUNDS {
             break;
         }
